@@ -548,7 +548,7 @@ theorem ready_logonReply (g0 : G8) (s : Sess) (m : InMsg) (flag : Bool) (hW : WK
     intro ho
     have hfr2 : Fr x (sendLogonRe x flag m) := fr_dropAndSend x _
     have hox : x.out = true := by rw [← hfr2.out]; exact ho
-    have := dropAndSend_admin g0 x ((logonMsg x flag).inReplyTo m) rfl hox
+    have := dropAndSend_admin g0 x ((logonMsgRe x flag m).inReplyTo m) rfl hox
     exact ⟨this.2, fun _ => this.1⟩
   · rename_i hini
     have hini' : s.cfg.initiator = true := by simpa using hini
@@ -564,7 +564,7 @@ theorem ready_logonReply (g0 : G8) (s : Sess) (m : InMsg) (flag : Bool) (hW : WK
     every state -/
 theorem handleLogon_shape (g0 : G8) (s : Sess) (m : InMsg) (hk : isAdminKind (kindOf m) = true) :
     (∃ e, (handleLogon s m).2 = some e ∧ e.isTooHigh = false ∧ P true g0 s (handleLogon s m).1) ∨
-    (∃ x, P true g0 s x ∧ (WK g0 s → s.st.loggedOn = false → Ready g0 x) ∧ handleLogon s m = logonFinish x m ∧ ∃ n, getInt m 34 = .val n) := by
+    (∃ x ns, P true g0 s x ∧ (WK g0 s → s.st.loggedOn = false → Ready g0 x) ∧ handleLogon s m = logonFinish x m ns ∧ ∃ n, getInt m 34 = .val n) := by
   unfold handleLogon
   split
   · exact Or.inl ⟨_, rfl, rfl, P.refl _ _ _⟩
@@ -594,20 +594,59 @@ theorem handleLogon_shape (g0 : G8) (s : Sess) (m : InMsg) (hk : isAdminKind (ki
       cases o2 with
       | some r => exact Or.inl ⟨_, rfl, hnt2 r rfl, h4⟩
       | none =>
-        exact Or.inr ⟨_, h4.trans (p_logonReply true g0 s4 m _), fun hW hnl => ready_logonReply g0 s4 m _ (h4.w hW) (by rw [h4.fr.st]; exact hnl), rfl, hseq rfl⟩
+        simp only []
+        by_cases hr : logonRefuses s4 m (logonResetFlag m) = true
+        · have e : ∀ ns, logonTail s4 m ns = (logonRefused s4 m, some (.rej .rejectLogon)) := by intro ns; unfold logonTail; rw [if_pos hr]
+          rw [e]
+          refine Or.inl ⟨_, rfl, rfl, h4.trans ?_⟩
+          unfold logonRefused
+          q_cases
+        · have e : ∀ ns, logonTail s4 m ns = logonFinish (logonReply s4 m (logonResetFlag m)) m ns := by
+            intro ns; unfold logonTail; rw [if_neg hr]
+          rw [e]
+          exact Or.inr ⟨_, _, h4.trans (p_logonReply true g0 s4 m _), fun hW hnl => ready_logonReply g0 s4 m _ (h4.w hW) (by rw [h4.fr.st]; exact hnl), rfl, hseq rfl⟩
 
-/-- `logonFinish` with a readable MsgSeqNum: the notification, then either a too-high verdict or the number consumed -/
-theorem logonFinish_spec (x : Sess) (m : InMsg) (n : Int) (hn : getInt m 34 = .val n) :
-    let y := ((x.setSentReset false).emit (.armPeer (1200 * x.hb))).emit .onLogon
-    logonFinish x m = (incrTarget y, none) ∨ ∃ a b, logonFinish x m = (y, some (.rej (.tooHigh a b))) := by
-  unfold logonFinish checkTooHigh
-  simp only [hn]
-  split
-  · rename_i r hr
-    split at hr
-    · cases hr; exact Or.inr ⟨_, _, rfl⟩
-    · cases hr
-  · exact Or.inl rfl
+/-- the evaluation of the peer's tag 789 reports nothing but a too-high verdict -/
+theorem nxEval_err (s : Sess) (m : InMsg) (ns : Int) (e : Rej) (h : (nxEval s m ns).2 = some e) : ∃ a b, e = .tooHigh a b := by
+  unfold nxEval at h
+  repeat' split at h
+  all_goals first | (cases h; exact ⟨_, _, rfl⟩) | cases h
+
+/-- `logonFinish` with a readable MsgSeqNum: the notification, the peer's tag 789, then either a too-high verdict (the gap
+    check's, or the one the evaluation of tag 789 reports without persistence) or the number consumed -/
+theorem logonFinish_spec (x : Sess) (m : InMsg) (ns n : Int) (hn : getInt m 34 = .val n) :
+    let y := (nxEval (((x.setSentReset false).emit (.armPeer (1200 * x.hb))).emit .onLogon) m ns).1
+    logonFinish x m ns = (incrTarget y, none) ∨ ∃ a b, logonFinish x m ns = (y, some (.rej (.tooHigh a b))) := by
+  unfold logonFinish
+  have he := nxEval_err (((x.setSentReset false).emit (.armPeer (1200 * x.hb))).emit .onLogon) m ns
+  generalize nxEval _ m ns = r at he
+  obtain ⟨y, o⟩ := r
+  cases o with
+  | some e =>
+    obtain ⟨a, b, rfl⟩ := he e rfl
+    exact Or.inr ⟨a, b, rfl⟩
+  | none =>
+    simp only []
+    unfold checkTooHigh
+    simp only [hn]
+    split
+    · rename_i r hr
+      split at hr
+      · cases hr; exact Or.inr ⟨_, _, rfl⟩
+      · cases hr
+    · exact Or.inl rfl
+
+theorem gapFillRe_ok (s : Sess) (m : InMsg) (a b : Int) : ((gapFillRe s m a b).kind == "5") = false ∧ appFirst (gapFillRe s m a b) = false :=
+  ⟨rfl, appFirst_admin _ (by show isAdminKind "4" = true; decide)⟩
+
+/-- the evaluation of the peer's tag 789 in a state that has been logged on: a gap fill at most -/
+theorem pn_nxEval_notif (g0 : G8) (x : Sess) (m : InMsg) (ns : Int) (hn : (x.st.loggedOn || x.st.isLogout) = true) :
+    PN g0 x (nxEval x m ns).1 := by
+  unfold nxEval
+  repeat' split
+  all_goals first
+    | exact PN.refl g0 x
+    | exact pn_enqueueAndSend g0 x _ hn (gapFillRe_ok _ _ _ _).1 (gapFillRe_ok _ _ _ _).2
 
 /-- in a state that has been logged on the logon notification changes nothing in the automaton -/
 theorem pn_onLogon_again (g0 : G8) (s : Sess) (hn : (s.st.loggedOn || s.st.isLogout) = true) : PN g0 s (s.emit .onLogon) := by
@@ -618,21 +657,27 @@ theorem pn_onLogon_again (g0 : G8) (s : Sess) (hn : (s.st.loggedOn || s.st.isLog
   generalize g8Of g0 s = g at h2 h3
   cases g; simp_all
 
-theorem p_logonFinish_notif (g0 : G8) (x : Sess) (m : InMsg) (hn : (x.st.loggedOn || x.st.isLogout) = true) :
-    P true g0 x (logonFinish x m).1 := by
-  have hy : P true g0 x (((x.setSentReset false).emit (.armPeer (1200 * x.hb))).emit .onLogon) :=
-    (by q_peel : P true g0 x ((x.setSentReset false).emit (.armPeer (1200 * x.hb)))).pn (pn_onLogon_again g0 _ hn)
+theorem p_logonFinish_notif (g0 : G8) (x : Sess) (m : InMsg) (ns : Int) (hn : (x.st.loggedOn || x.st.isLogout) = true) :
+    P true g0 x (logonFinish x m ns).1 := by
+  have hy : P true g0 x (nxEval (((x.setSentReset false).emit (.armPeer (1200 * x.hb))).emit .onLogon) m ns).1 :=
+    ((by q_peel : P true g0 x ((x.setSentReset false).emit (.armPeer (1200 * x.hb)))).pn (pn_onLogon_again g0 _ hn)).pn
+      (pn_nxEval_notif g0 _ m ns hn)
   unfold logonFinish
-  simp only []
-  split
-  · exact hy
-  · exact qpeel_incrTarget hy
+  generalize nxEval _ m ns = r at hy
+  obtain ⟨y, o⟩ := r
+  cases o with
+  | some e => exact hy
+  | none =>
+    simp only [] at hy ⊢
+    split
+    · exact hy
+    · exact qpeel_incrTarget hy
 
 theorem p_handleLogon_notif (g0 : G8) (s : Sess) (m : InMsg) (hk : isAdminKind (kindOf m) = true)
     (hn : (s.st.loggedOn || s.st.isLogout) = true) : P true g0 s (handleLogon s m).1 := by
-  rcases handleLogon_shape g0 s m hk with ⟨e, _, _, h⟩ | ⟨x, hx, _, heq, _⟩
+  rcases handleLogon_shape g0 s m hk with ⟨e, _, _, h⟩ | ⟨x, ns, hx, _, heq, _⟩
   · exact h
-  · rw [heq]; exact hx.trans (p_logonFinish_notif g0 x m (by rw [hx.fr.st]; exact hn))
+  · rw [heq]; exact hx.trans (p_logonFinish_notif g0 x m ns (by rw [hx.fr.st]; exact hn))
 
 theorem kind_admin_of_beq (m : InMsg) (k : String) (hk : (kindOf m == k) = true) (ha : isAdminKind k = true) : isAdminKind (kindOf m) = true := by
   have : kindOf m = k := by simpa using hk
